@@ -7,7 +7,7 @@ CONSTANTS
   MaxProps = 2
   StopDeltas = {1, 3}
   TrigDeltas = {0, 1}
-  Pcts = {51, 100}
+  Pcts = {51}
   Toks = {"ok"}
   MaxOps = 1000000
   MaxH = 6
